@@ -243,6 +243,7 @@ extern "C" double w_readValue(char* line, int n, int off, int* out)
 {
    VIN("n", n); VIN("len", g_len); VIN("off", off); VIN_ARR8("text", line + off, n - off);
    char* p = line + off;
+   gp_line = line;
    R v = LPFreadValue(p, 0);
    int o = (int)(p - line);
    /* witness for the token length: a number token contains no white space, so a blank in front of the final pos is the skipped one */
